@@ -142,6 +142,8 @@ def route_stages(desc, stages):
     route = desc.get("route") or "direct"
     if route == "direct":
         return list(stages)
+    if route == "final":
+        return list(stages)[-1:]  # the direct route, last stage prefix only (cheap extra naming of a large space)
     at = int(route.split("@")[1])
     if route.startswith("alias"):
         return [k for k in stages if k == at]
@@ -171,6 +173,8 @@ def staged(desc, payload, k):
         except Exception:
             pass
         return g, orig_blocks
+    if route == "final":
+        route = "direct"
     if route != "direct":
         how = "yaml" if route.startswith("y") else "dict"
         at = int(route.split("@")[1])
@@ -462,6 +466,10 @@ def region_walk_check(orig, scfg):
             if k >= len(rnb):
                 raise _V(("region-arity", R.name, cur_block._jump_targets, R._jump_targets))
             cur_idx = rnb[k]
+            if R._jump_targets[cur_idx] != cur_t:
+                # the exiting block leaves towards a target the region does not declare at that position: walking by
+                # the blocks' own targets and walking by the regions' outgoing targets part ways here
+                raise _V(("region-exit-target-undeclared", R.kind, R.name, cur_path[-1], cur_t, R._jump_targets[cur_idx]))
             cur_t = R._jump_targets[cur_idx]
             cur_block = R
             cur_path = cur_path[:-1]
